@@ -139,7 +139,7 @@ m = {
                                 "obligations discharged by a portfolio of z3 5.1.0, z3 4.8.12 and cvc5 1.0"}],
  "checks": checks,
  "not_applicable": [{"property_id": p, "reason": NA_REASONS.get(p, DEFAULT_NA)} for p in props if p not in CLAIMED],
- "notes": "See DESIGN.md Part II (sections 12-19) for the framework as built. Known findings: /verif/known_findings.json (witness tests in /verif/witness). Must-fail corpora: /verif/mutants (own, 78 patches: 72 detected at the end of session 2, 6 written and detected in session 3) and /verif/seeded (140 changes by blind agents in four rounds; 57 detected at first pass, 130 by the final checks; DESIGN.md section 17). Bounded stand-in (labelled bounded): /verif/bounded. ./verif selftest runs everything.",
+ "notes": "See DESIGN.md Part II (sections 12-19) for the framework as built. Known findings: /verif/known_findings.json (witness tests in /verif/witness). Must-fail corpora: /verif/mutants (own, 78 patches: 72 detected at the end of session 2, 6 written and detected in session 3; 6 of the old ones re-run after the engine changes of session 3) and /verif/seeded (150 changes by blind agents in four rounds; 61 detected at first pass, 139 by the final checks; DESIGN.md section 17). Bounded stand-in (labelled bounded): /verif/bounded. ./verif selftest runs everything.",
 }
 json.dump(m, open("/verif/MANIFEST.json", "w"), indent=1)
 print("claimed:", sorted(CLAIMED))
